@@ -125,3 +125,24 @@ Proof.
     change (append_patterns (append_patterns (append_patterns [] (x :: l')) []) []) with (append_patterns [] (x :: l')).
     rewrite append_patterns_fresh; [reflexivity|exact Hn|intros y _ []].
 Qed.
+
+(* the same for any duplicate-free previous list: what a run writes as pattern list is reproduced when it is read back as
+   the previous list of the next run with nothing added *)
+Theorem set_patterns_stable_gen e cli file : NoDup e ->
+  let l := set_patterns e cli file in set_patterns e l [] = l /\ set_patterns l [] [] = l.
+Proof.
+  intros He. cbn zeta. set (l := set_patterns e cli file).
+  assert (Hn : NoDup l) by apply set_patterns_NoDup.
+  destruct (set_patterns_prefix e cli file He) as [s Hs]. fold l in Hs.
+  assert (Hbn : NoDup (base_of e)).
+  { unfold base_of. destruct e; [|exact He]. repeat constructor; cbn; intros H; repeat destruct H as [H|H]; try discriminate H; auto. }
+  assert (Hd : append_patterns [] (base_of e) = base_of e) by (rewrite append_patterns_fresh; [reflexivity|exact Hbn|intros x _ []]).
+  assert (Hbne : base_of e <> []) by (unfold base_of; destruct e; discriminate).
+  split.
+  - unfold set_patterns at 1. fold (base_of e). cbn [append_patterns]. rewrite Hd, Hs. rewrite append_patterns_skip by tauto.
+    rewrite Hs in Hn. destruct (NoDup_app_parts _ _ Hn) as [Hns Hdis]. apply append_patterns_fresh; assumption.
+  - assert (Hne : l <> []) by (rewrite Hs; destruct (base_of e); [congruence|discriminate]). clear Hs Hd. clearbody l.
+    unfold set_patterns. destruct l as [|x l']; [congruence|].
+    change (append_patterns (append_patterns (append_patterns [] (x :: l')) []) []) with (append_patterns [] (x :: l')).
+    rewrite append_patterns_fresh; [reflexivity|exact Hn|intros y _ []].
+Qed.
